@@ -266,7 +266,7 @@ pub fn check_query<G: Rig>(model: &mut Model, d: &QDesc, cx: &QCtx, targets: &[I
                 }
             }
         }
-        if cx.items.len() != expected.len() {
+        if !cx.subset && cx.items.len() != expected.len() {
             let missing: Vec<&IdP> = expected.iter().filter(|e| !seen.contains(e)).take(4).collect();
             return Err(format!(
                 "{what}: query yielded {} results, {} entities match (unseen e.g. {:?})",
@@ -286,11 +286,23 @@ pub fn check_query<G: Rig>(model: &mut Model, d: &QDesc, cx: &QCtx, targets: &[I
                 unresolved.iter().map(|it| it.comps.iter().map(|c| (c.k, c.old.map(|o| o.val))).collect()).collect();
             exp.sort();
             got.sort();
-            if exp != got {
+            let subset_ok = cx.subset && {
+                // every observed tuple must be matched by a distinct expected one
+                let mut pool = exp.clone();
+                got.iter().all(|g| match pool.iter().position(|e| e == g) {
+                    Some(i) => {
+                        pool.swap_remove(i);
+                        true
+                    }
+                    None => false,
+                })
+            };
+            if exp != got && !subset_ok {
                 return Err(format!("{what}: results without identity do not match the expected multiset: got {got:?} expected {exp:?}"));
             }
-            // uniform writes to non-identity components
-            for e in expected.iter().filter(|e| !seen.contains(e)) {
+            // uniform writes to non-identity components (a subset consumer leaves it open which
+            // entities were written: such queries are driven read-only)
+            for e in expected.iter().filter(|e| !seen.contains(e) && !cx.subset) {
                 let mc = model.ents.get_mut(e).unwrap();
                 for v in d.views {
                     if let ViewD::Comp(k, vk) = *v {
@@ -314,6 +326,11 @@ pub fn check_query<G: Rig>(model: &mut Model, d: &QDesc, cx: &QCtx, targets: &[I
         }
         if cx.next_after_end_was_none == Some(false) {
             return Err(format!("{what}: iterator yielded a result after returning None"));
+        }
+    }
+    if let Some(n) = cx.counted {
+        if n != expected.len() {
+            return Err(format!("{what}: parallel count() = {n}, {} entities match", expected.len()));
         }
     }
     // resource views
